@@ -4,6 +4,7 @@
 //!
 //! Writes a JSON report (see report.rs) to FILE; `./check` turns it into the verdict and the evidence.
 
+pub mod corpus;
 pub mod driver;
 pub mod pdfwrite;
 pub mod report;
@@ -21,6 +22,18 @@ fn main() {
         std::process::exit(2);
     }
     let prop = args[1].clone();
+    if prop == "corpus-stats" {
+        util::quiet_panics();
+        for (name, b) in corpus::fixture_files() {
+            let n = corpus::normalise(&b);
+            println!("{} {} -> {:?}", name, b.len(), n.as_ref().map(|x| x.len()));
+            if let (Some(n), Some(dir)) = (n, args.get(2)) {
+                let f = format!("{}/{}", dir, name.rsplit('/').next().unwrap());
+                std::fs::write(f, n).ok();
+            }
+        }
+        return;
+    }
     let mut tier = "quick".to_string();
     let mut seed = 1u64;
     let mut driver_path = "/verif/lean/.lake/build/bin/driver".to_string();
